@@ -222,11 +222,13 @@ func (w *World) OpArraySet(n *Node, idx uint64, vn *Node) error {
 	n.Elems[idx] = vn
 	if oldNode != vn {
 		attach(n, vn)
-		if err := w.checkReturned(old, oldNode, "Array.Set previous element"); err != nil {
-			return err
-		}
-		if err := w.handleDetached(old, oldNode); err != nil {
-			return err
+		if !w.blindDisposal(old, oldNode) {
+			if err := w.checkReturned(old, oldNode, "Array.Set previous element"); err != nil {
+				return err
+			}
+			if err := w.handleDetached(old, oldNode); err != nil {
+				return err
+			}
 		}
 	}
 	return w.checkArrayCount(n, "after Set")
@@ -253,11 +255,13 @@ func (w *World) OpArrayRemove(n *Node, idx uint64) error {
 	}
 	oldNode := n.Elems[idx]
 	n.Elems = append(n.Elems[:idx], n.Elems[idx+1:]...)
-	if err := w.checkReturned(old, oldNode, "Array.Remove element"); err != nil {
-		return err
-	}
-	if err := w.handleDetached(old, oldNode); err != nil {
-		return err
+	if !w.blindDisposal(old, oldNode) {
+		if err := w.checkReturned(old, oldNode, "Array.Remove element"); err != nil {
+			return err
+		}
+		if err := w.handleDetached(old, oldNode); err != nil {
+			return err
+		}
 	}
 	return w.checkArrayCount(n, "after Remove")
 }
@@ -406,11 +410,13 @@ func (w *World) OpMapSet(n *Node, key *Node, vn *Node) error {
 			if old == nil {
 				return viol("ret", "Map.Set on an existing key returned no previous value")
 			}
-			if err := w.checkReturned(old, oldNode, "Map.Set previous value"); err != nil {
-				return err
-			}
-			if err := w.handleDetached(old, oldNode); err != nil {
-				return err
+			if !w.blindDisposal(old, oldNode) {
+				if err := w.checkReturned(old, oldNode, "Map.Set previous value"); err != nil {
+					return err
+				}
+				if err := w.handleDetached(old, oldNode); err != nil {
+					return err
+				}
 			}
 		}
 	} else {
@@ -455,14 +461,19 @@ func (w *World) OpMapRemove(n *Node, key *Node) error {
 	if err := w.checkReturned(ks, e.Key, "Map.Remove key"); err != nil {
 		return err
 	}
-	if err := w.checkReturned(vs, e.Val, "Map.Remove value"); err != nil {
-		return err
+	blind := w.blindDisposal(vs, e.Val)
+	if !blind {
+		if err := w.checkReturned(vs, e.Val, "Map.Remove value"); err != nil {
+			return err
+		}
 	}
 	if err := w.dispose(ks); err != nil {
 		return err
 	}
-	if err := w.handleDetached(vs, e.Val); err != nil {
-		return err
+	if !blind {
+		if err := w.handleDetached(vs, e.Val); err != nil {
+			return err
+		}
 	}
 	return w.checkMapCount(n, "after Map.Remove")
 }
